@@ -233,6 +233,9 @@ func (v *Verifier) solveOne(o *Obligation, dir string, timeoutS int) *SolveResul
 	if o.Static != "" {
 		res.Status = o.Static
 		res.Solver = "ssa-frame-analysis"
+		if o.Kind == "lemma" {
+			res.Solver = "lean-4-mathlib"
+		}
 		res.Output = o.StaticDetail
 		res.Tried = []string{"ssa-frame-analysis:" + o.Static}
 		return res
